@@ -98,6 +98,15 @@ func (fg *FnGen) callWrites(x ssa.CallInstruction, set map[string]bool, all *boo
 	if _, ok := x.(*ssa.Defer); ok {
 		return // accounted for at RunDefers
 	}
+	for _, m := range fg.monitors {
+		for _, r := range m.Rules {
+			if r.Kind == "after" && matchAny(r.Callees, d) {
+				for _, gs := range r.Sets {
+					set["ghost:"+gs.Name] = true
+				}
+			}
+		}
+	}
 	if b, ok := c.Value.(*ssa.Builtin); ok {
 		switch b.Name() {
 		case "append", "copy":
@@ -111,15 +120,6 @@ func (fg *FnGen) callWrites(x ssa.CallInstruction, set map[string]bool, all *boo
 			*all = true
 		}
 		return
-	}
-	for _, m := range fg.monitors {
-		for _, r := range m.Rules {
-			if r.Kind == "after" && matchAny(r.Callees, d) {
-				for _, gs := range r.Sets {
-					set["ghost:"+gs.Name] = true
-				}
-			}
-		}
 	}
 	if ct := fg.g.contractFor(d); ct != nil {
 		if ct.Pure {
@@ -265,7 +265,9 @@ func (fg *FnGen) doCall(fr *Frame, site ssa.Instruction, c *ssa.CallCommon, st *
 	fg.monitorBefore(fr, d, args, argTypes, st, reach, pos)
 	res, st2 := fg.dispatchCall(fr, site, c, d, args, argTypes, st, reach, pos, name)
 	fg.bumpClock(res, d.sig)
+	fg.preCallState = st
 	st2 = fg.monitorAfter(fr, d, args, res, argTypes, st2, reach)
+	fg.preCallState = nil
 	return res, st2
 }
 
@@ -874,6 +876,20 @@ func (fg *FnGen) mapUpdate(fr *Frame, x *ssa.MapUpdate, st *State, reach *Term) 
 	mt := x.Map.Type().Underlying().(*types.Map)
 	m, k, v := fg.val(fr, x.Map), fg.val(fr, x.Key), fg.val(fr, x.Value)
 	fg.safety("nilmap", reach, Neq(m, IntLit(0)), x.Pos())
+	if fr.top && len(fg.monitors) > 0 {
+		// monitors can watch map stores: before call builtin.mapupdate args m, k, v : assert ...
+		// the rule names the value type: builtin.mapupdate:openfgav1.Relation for a map[...]*openfgav1.Relation
+		vn := "other"
+		vt := mt.Elem()
+		if p, ok := vt.Underlying().(*types.Pointer); ok {
+			vt = p.Elem()
+		}
+		if n, ok := types.Unalias(vt).(*types.Named); ok && n.Obj().Pkg() != nil {
+			vn = n.Obj().Pkg().Name() + "." + n.Obj().Name()
+		}
+		d := callDesc{full: "builtin.mapupdate:" + vn, short: "builtin.mapupdate:" + vn}
+		fg.monitorBefore(fr, d, []*Term{m, k, v}, []types.Type{x.Map.Type(), x.Key.Type(), x.Value.Type()}, st, reach, x.Pos())
+	}
 	dn, ds, vn, vs := fg.mapVarNames(mt)
 	dom, val := fg.lookup(st, dn, ds), fg.lookup(st, vn, vs)
 	fg.set(st, dn, ds, Store(dom, m, Store(Select(dom, m), k, True)))
@@ -998,6 +1014,15 @@ func (fg *FnGen) native(fr *Frame, d callDesc, c *ssa.CallCommon, args []*Term, 
 	case "time.Now":
 		r := fresh(fg.g.ti.sortOf(d.sig.Results().At(0).Type()))
 		fg.assume(Gt(fg.timePoint(r), IntLit(0)))
+		// the clock is monotone: a reading taken in a block dominated by an earlier reading is not before it
+		if fr != nil && fr.curBlock != nil {
+			for _, n := range fr.nows {
+				if n.b == fr.curBlock || n.b.Dominates(fr.curBlock) {
+					fg.assume(Ge(fg.timePoint(r), fg.timePoint(n.t)))
+				}
+			}
+			fr.nows = append(fr.nows, nowRec{fr.curBlock, r})
+		}
 		return one(r)
 	case "time.Since":
 		return one(fresh(SInt))
@@ -1032,7 +1057,7 @@ func (fg *FnGen) lastIndexByte(s, c *Term, name string) *Term {
 
 // ---------------------------------------------------------------- monitors
 
-func (fg *FnGen) monitorSend(fr *Frame, x *ssa.Send, st *State, reach *Term) {
+func (fg *FnGen) monitorSend(fr *Frame, x *ssa.Send, st *State, reach *Term) *State {
 	d := callDesc{short: "send", full: "send"}
 	if u, ok := x.Chan.(*ssa.UnOp); ok {
 		if fa, ok := u.X.(*ssa.FieldAddr); ok {
@@ -1045,7 +1070,10 @@ func (fg *FnGen) monitorSend(fr *Frame, x *ssa.Send, st *State, reach *Term) {
 		d.short = "send:" + p.Name()
 	}
 	d.full = d.short
-	fg.monitorBefore(fr, d, []*Term{fg.val(fr, x.X)}, []types.Type{x.X.Type()}, st, reach, x.Pos())
+	args, argTypes := []*Term{fg.val(fr, x.X)}, []types.Type{x.X.Type()}
+	fg.monitorBefore(fr, d, args, argTypes, st, reach, x.Pos())
+	d.sig = types.NewSignatureType(nil, nil, nil, nil, nil, false)
+	return fg.monitorAfter(fr, d, args, nil, argTypes, st, reach)
 }
 
 // sprintf models fmt.Sprintf exactly for literal formats made of text, %s / %v on string operands and %d / %v on
